@@ -192,6 +192,16 @@ def nextSt (s : St) (res : CallRes) (a' : Nat) : St :=
       | .garbled => none,
     a := a' }
 
+/-- Two callers at the same moment: the channel queues them, so what they see must be what two
+calls one right after the other (no fault in between) may see — for some split of the connection
+attempts made meanwhile between the two. In particular the two cannot both be handed the failure
+of the same attempt, and the second one is served if the endpoint is reachable when its turn
+comes. -/
+def pairOk (outs : List Outcome) (s : St) (ra rb : CallRes) (a' : Nat) : Bool :=
+  (List.range (a' - s.a + 1)).any fun d =>
+    (callClauses outs s .plain ra (s.a + d) ++
+      callClauses outs (nextSt s ra (s.a + d)) .plain rb a').all (·.2)
+
 def evClauses (outs : List Outcome) : St → List Op → List Ev → List (String × Bool)
   | _, [], [] => []
   | s, .die :: ops, .die :: evs => evClauses outs { s with live := none } ops evs
@@ -201,12 +211,21 @@ def evClauses (outs : List Outcome) : St → List Op → List Ev → List (Strin
     callClauses outs s .zeroDeadline res a' ++ evClauses outs (nextSt s res a') ops evs
   | s, .callDie :: ops, .call res a' :: evs =>
     callClauses outs s .peerDies res a' ++ evClauses outs (nextSt s res a') ops evs
+  | s, .pair :: ops, .pair ra rb a' :: evs =>
+    ("concurrent-calls-explainable-in-queue-order", pairOk outs s ra rb a') ::
+      evClauses outs (nextSt (nextSt s ra a') rb a') ops evs
   | _, [], _ :: _ => [("trace-shape", false)]
   | _, _ :: _, [] => [("trace-shape", false)]
   | _, .die :: _, .call _ _ :: _ => [("trace-shape", false)]
+  | _, .die :: _, .pair _ _ _ :: _ => [("trace-shape", false)]
   | _, .call :: _, .die :: _ => [("trace-shape", false)]
+  | _, .call :: _, .pair _ _ _ :: _ => [("trace-shape", false)]
   | _, .callZero :: _, .die :: _ => [("trace-shape", false)]
+  | _, .callZero :: _, .pair _ _ _ :: _ => [("trace-shape", false)]
   | _, .callDie :: _, .die :: _ => [("trace-shape", false)]
+  | _, .callDie :: _, .pair _ _ _ :: _ => [("trace-shape", false)]
+  | _, .pair :: _, .die :: _ => [("trace-shape", false)]
+  | _, .pair :: _, .call _ _ :: _ => [("trace-shape", false)]
 
 /-- The connection that is up after `a` attempts made while building the channel. -/
 def liveAfter (outs : List Outcome) (a : Nat) : Option Nat :=
